@@ -80,19 +80,15 @@ theorem C04_number_bigstep_fails : ¬ C04_number_full := by
 every path of such edges; that the Go-chosen path IS a path of proposed edges is checked on each run
 (V stream `t2.asm`). -/
 
-/-- Every edge proposed for the operators rlineto, hlineto, vlineto, rlinecurve, rrcurveto,
-rcurveline, hhcurveto, vvcurveto, hflex, hflex1 is sound (`EdgeSound`): it advances and stays inside the sub-path, uses at
-most 48 operands, gives the operator a TN5177-legal operand count, takes its operands from the
-commands it covers and — executed by the specification interpreter on these operands, from any state —
-draws exactly the commands `cmds[0 : to-from]`, clearing the stack.
-Partial: the edges for hvcurveto and vhcurveto are not covered yet. -/
-theorem C04_edge_sound_partial (frm : Nat) (cmds : List Seg) (e : Edge)
-    (he : e ∈ appendEdges frm cmds) (hc : coreOp2 e.op = true) : EdgeSound frm cmds e :=
-  appendEdges_sound_core2 frm cmds e he hc
-
-/-- the full statement: every proposed edge -/
-def C04_edge_sound_full : Prop :=
-  ∀ (frm : Nat) (cmds : List Seg) (e : Edge), e ∈ appendEdges frm cmds → EdgeSound frm cmds e
+/-- Every edge `encoder.AppendEdges` proposes — all twelve operator forms: rlineto, hlineto, vlineto,
+rlinecurve, rrcurveto, rcurveline, hhcurveto, vvcurveto, hvcurveto, vhcurveto, hflex, hflex1 — is sound
+(`EdgeSound`): it advances and stays inside the sub-path, uses at most 48 operands, gives the operator
+a TN5177-legal operand count, takes its operands from the commands it covers and — executed by the
+specification interpreter on these operands, from any state — draws exactly the commands
+`cmds[0 : to-from]`, clearing the stack. -/
+theorem C04_edge_sound (frm : Nat) (cmds : List Seg) (e : Edge) (he : e ∈ appendEdges frm cmds) :
+    EdgeSound frm cmds e :=
+  appendEdges_sound frm cmds e he
 
 /-- Operands produced by `encodeNumber` for |x| ≤ 32767 are read back by the interpreter as the
 value the encoder recorded (this is the hypothesis `Decodes` of the byte-level theorems). -/
@@ -122,19 +118,12 @@ theorem C04_edge_bytes (env : T2.Env) (frm : Nat) (cmds : List Seg) (e : Edge) (
 /-- Any path of proposed edges from node 0 to the end of the sub-path — whatever the shortest-path
 routine returns — compiles to bytes that the specification interpreter executes as exactly the
 sub-path: all its lines and curves, in order, with the encoder's recorded deltas, ending with an empty
-stack in front of the following code.
-Partial: paths that use hvcurveto/vhcurveto edges are not covered yet. -/
-theorem C04_path_sound_partial (env : T2.Env) (segs : List Seg) (path : List Edge)
-    (hp : IsPath segs 0 path) (hcore : ∀ e ∈ path, coreOp2 e.op = true)
-    (hd : ∀ g ∈ segs, ∀ a ∈ g.args, Decodes a) (s : St) (hr : Ready s) (rest : List Nat) :
+stack in front of the following code. -/
+theorem C04_path_sound (env : T2.Env) (segs : List Seg) (path : List Edge)
+    (hp : IsPath segs 0 path) (hd : ∀ g ∈ segs, ∀ a ∈ g.args, Decodes a) (s : St) (hr : Ready s)
+    (rest : List Nat) :
     Reaches strict env s (path.flatMap Edge.bytes ++ rest) (drawSegs strict s segs) rest := by
-  simpa using path_reaches env segs 0 path hp hcore hd s hr rest
-
-/-- the full statement: any path of proposed edges -/
-def C04_path_sound_full : Prop :=
-  ∀ (env : T2.Env) (segs : List Seg) (path : List Edge), IsPath segs 0 path →
-    (∀ g ∈ segs, ∀ a ∈ g.args, Decodes a) → ∀ (s : St), Ready s → ∀ (rest : List Nat),
-      Reaches strict env s (path.flatMap Edge.bytes ++ rest) (drawSegs strict s segs) rest
+  simpa using path_reaches env segs 0 path hp hd s hr rest
 
 /-- non-vacuity: for "5 0 lineto-delta, 0 7, 3 4" the proposals at node 0 are rlineto over 1 and 2… -/
 def exSegs : List Seg :=
